@@ -594,6 +594,22 @@ func init() {
 }
 
 func runC12(c *rt.Ctx) {
+	callerEditsReturnedErrors(c, map[string]func() error{
+		"size.DefaultParser[string](object without value, object form)": func() error { _, err := size.DefaultParser(`{"unit":"kB"}`, size.RuleEnableJSONObjectForm); return err },
+		"size.DefaultParser[[]byte](object, rule without object form)": func() error {
+			_, err := size.DefaultParser([]byte(`{"value":1,"unit":"kB"}`), size.RuleEnableJSONStringForm)
+			return err
+		},
+		"size.DefaultParser[string](JSON string, rule without it)": func() error { _, err := size.DefaultParser(`"1kB"`, size.RuleEnableJSONObjectForm); return err },
+		"size.DefaultParser[string](1xb, 0)":                       func() error { _, err := size.DefaultParser("1xb", 0); return err },
+		"size.DefaultParser[string](duplicated key)": func() error {
+			_, err := size.DefaultParser(`{"value":1,"value":2,"unit":"B"}`, size.RuleEnableJSONObjectForm)
+			return err
+		},
+		"size.Parser variable(-1)":  func() error { _, err := size.Parser([]byte("-1"), size.DefaultRule); return err },
+		"Size.UnmarshalJSON([1])":   func() error { var s size.Size; return s.UnmarshalJSON([]byte("[1]")) },
+		"Size.UnmarshalText(1 ZiB)": func() error { var s size.Size; return s.UnmarshalText([]byte("1 ZiB")) },
+	})
 	c.SetRule("seeded AST-generated JSON documents: numbers (integers incl. 0, 2^64-1, 2^64; negatives; fractions; exponents), strings in and out of the text grammar with JSON escapes, true/false/null, arrays, objects with value/unit/unknown members (scalars and nested arrays/objects to depth 4 containing keys named value/unit), key-case variants, duplicates, type confusions, member counts at MaxObjectKeys-1/=/+1; " +
 		"every permutation of the members (<= 5 members; 12 shuffles above), every truncation point and a set of trailing suffixes of each document; x all 16 rule subsets x MaxObjectKeys in {0,1,2,3,16} (a small pool through the full 80-configuration cross, a large pool through 20 of them) x {string, []byte, Size.UnmarshalJSON}. " +
 		"distinct_nontrivial counts distinct (document, rules, limit) triples (by hash) whose document is an object with >= 3 members or a malformed/trailing variant of a valid document")
